@@ -21,6 +21,11 @@ use crate::config::Config;
 pub struct TorrentMaps {
     ipv4: TorrentMap,
     ipv6: TorrentMap,
+    /// Connections that have been reported closed. Requests travel through
+    /// another channel than the close notices, so announces sent before a
+    /// connection closed can arrive after its notice. They must not create
+    /// peers that nobody will remove.
+    closed_connections: HashMap<(u8, ConnectionId), ValidUntil>,
 }
 
 impl TorrentMaps {
@@ -28,6 +33,24 @@ impl TorrentMaps {
         Self {
             ipv4: TorrentMap::new(worker_index, IpVersion::V4),
             ipv6: TorrentMap::new(worker_index, IpVersion::V6),
+            closed_connections: Default::default(),
+        }
+    }
+
+    /// Remember that a connection is closed, for as long as requests it sent
+    /// earlier can still be in flight
+    pub fn note_connection_closed(
+        &mut self,
+        config: &Config,
+        server_start_instant: ServerStartInstant,
+        consumer_id: ConsumerId,
+        connection_id: ConnectionId,
+    ) {
+        if let Some(valid_until) =
+            ValidUntil::new(server_start_instant, config.cleaning.max_connection_idle)
+        {
+            self.closed_connections
+                .insert((consumer_id.0, connection_id), valid_until);
         }
     }
 
@@ -40,6 +63,13 @@ impl TorrentMaps {
         request_sender_meta: InMessageMeta,
         request: AnnounceRequest,
     ) {
+        if self.closed_connections.contains_key(&(
+            request_sender_meta.out_message_consumer_id.0,
+            request_sender_meta.connection_id,
+        )) {
+            return;
+        }
+
         let torrent_map = self.get_torrent_map_by_ip_version(request_sender_meta.ip_version);
 
         torrent_map.handle_announce_request(
@@ -75,6 +105,10 @@ impl TorrentMaps {
         if let Some(now) = server_start_instant.seconds_elapsed() {
             self.ipv4.clean(config, &mut access_list_cache, now);
             self.ipv6.clean(config, &mut access_list_cache, now);
+
+            self.closed_connections
+                .retain(|_, valid_until| valid_until.valid(now));
+            self.closed_connections.shrink_to_fit();
         } else {
             ::log::error!("Could not clean torrents due to clock monotonicity error.");
         }
